@@ -97,11 +97,19 @@ Fixpoint bad_codes_from {A} (f : A -> Z) (i : Z) (l : list A) : list (Z * Z) :=
   end.
 Definition bad_codes {A} (f : A -> Z) (l : list A) : list (Z * Z) := bad_codes_from f 0 l.
 
-(* ---- sub-check "kd-tree = brute force" on integer lattice points (exact ties, distance = bound) ---- *)
+(* ---- sub-check "kd-tree = brute force" on integer lattice points (exact ties, distance = bound) ----
+   The library answer must be found / not-found exactly when the brute-force reference [nearest] (strict bound) is,
+   and at exactly the reference's distance; which of several equidistant points is returned is not constrained
+   (measured: pykdtree does not always return the lowest index). *)
 (* (points, queries, squared bound, observed indices) *)
 Definition lattice_case := (list xyzZ * list xyzZ * Z * list Z)%type.
 Definition lattice_code (c : lattice_case) : Z :=
   let '(pts, qs, r2, idx) := c in
-  let cands := seq 0 (length pts) in
-  let model := map (fun q => Z.of_nat (nearest r2 (fun s => sqd q (nth s pts (0, 0, 0))) cands)) qs in
-  if z_list_eqb model idx then 0 else 1.
+  let n := length pts in
+  let cands := seq 0 n in
+  if list_eqb (fun q iz =>
+       let d := fun s => sqd q (nth s pts (0, 0, 0)) in
+       let m := nearest r2 d cands in
+       let i := Z.to_nat iz in
+       if (m <? n)%nat then (i <? n)%nat && (d i =? d m) else (i =? n)%nat) qs idx
+  then 0 else 1.
